@@ -11,6 +11,13 @@ verifies under at most one key is the HMAC-SHA256 assumption of the trusted base
 
 `Cfg.strictIat = false` is the code as found (an issue time is checked only when the token carries one and the hub
 clock is real: known finding C10-iat-optional); `Cfg.strictIat = true` is the property read strictly.
+`auth_sound_strict_reading` (alias `auth_sound`) is about the strict reading ONLY; the code as found is
+`auth_sound_as_found`.
+
+The first part states the theorems over pairs (header text, decoded content); the section "the decision as a function
+of the header TEXT" restates the main ones (`granted_text_iff`, `auth_sound_as_found_text`, `auth_complete_text`, …)
+with the content a function of the text, for every decoder. The last section is the output clause ("the API never
+returns a password or its hash"): `device_doc_never_contains_hash` and its non-interference form.
 -/
 namespace QtVerif.Auth.C10
 open QtVerif.Auth
@@ -42,16 +49,27 @@ theorem valid_meets {cfg : Cfg} {now : Int} {origin : String} {hs : Hashes} {U :
   rw [hu, consumerKey_name] at hk hs'
   exact ⟨htext, hu, hv.hiss, hv.hori, hv.halg, hs', hk⟩
 
-/-- **Soundness, strict reading.** With the issue-time requirement enforced (`strictIat`), a request carrying an
+/-- **Soundness, STRICT READING only** (`strictIat = true` is the repaired reading of the property, NOT the code as
+found; the code as found is `auth_sound_as_found`, and `unrepaired_iat_optional` / `unrepaired_clockless_stale` show
+that it does not meet this statement). With the issue-time requirement enforced, a request carrying an
 `Authorization` header is granted the level of `U` only if the header is a well-formed bearer token that names `U`,
 has the expected issuer and origin, an issue time within the skew, algorithm HS256 and a signature made with `U`'s
 current password hash. -/
-theorem auth_sound (cfg : Cfg) (now : Int) (origin : String) (hs : Hashes) (hdr : List Nat) (dec : Option Tok)
-    (U : User) (hstrict : cfg.strictIat = true) (hne : hdr ≠ [])
+theorem auth_sound_strict_reading (cfg : Cfg) (now : Int) (origin : String) (hs : Hashes) (hdr : List Nat)
+    (dec : Option Tok) (U : User) (hstrict : cfg.strictIat = true) (hne : hdr ≠ [])
     (h : prepare cfg now origin hs hdr dec = some U) :
     ∃ t, dec = some t ∧ Meets cfg origin hs U hdr t ∧ IssueTimeWithin cfg now t := by
   obtain ⟨htext, t, hd, hu, hv⟩ := (prepare_iff cfg now origin hs hdr dec U hne).1 h
   exact ⟨t, hd, valid_meets htext hu hv, iatStep_strict hstrict hv.hiat⟩
+
+/-- STRICT READING (strictIat = true; the code as found is auth_sound_as_found): alias of
+`auth_sound_strict_reading`, kept under this name because the manifest text cites it. It says nothing about the
+code as it is. -/
+theorem auth_sound (cfg : Cfg) (now : Int) (origin : String) (hs : Hashes) (hdr : List Nat) (dec : Option Tok)
+    (U : User) (hstrict : cfg.strictIat = true) (hne : hdr ≠ [])
+    (h : prepare cfg now origin hs hdr dec = some U) :
+    ∃ t, dec = some t ∧ Meets cfg origin hs U hdr t ∧ IssueTimeWithin cfg now t :=
+  auth_sound_strict_reading cfg now origin hs hdr dec U hstrict hne h
 
 /-- **Soundness of the code as found.** Same conjuncts; the issue time is within the skew *whenever the token
 states one and the hub clock is real* (the code's choice). -/
@@ -77,7 +95,7 @@ def exTok (usr : String) (key : Key) (iat : TClaim) : Tok :=
     ori := some "consumer", usr := .str usr, iat := iat, nbf := .absent, exp := .absent, audBad := false,
     subBad := false, jtiBad := false, sigKey := some key }
 
-/-- non-vacuity of `auth_sound` / `auth_sound_as_found`: a granted request exists in both readings -/
+/-- non-vacuity of `auth_sound_strict_reading` / `auth_sound_as_found`: a granted request exists in both readings -/
 example : prepare (exCfg true) exNow "consumer" exHs exHdr (some (exTok "normal" "k-normal" (.num (exNow - 5000))))
     = some .normal := by decide
 example : prepare (exCfg false) exNow "consumer" exHs exHdr (some (exTok "admin" "k-admin" (.num (exNow + 307200))))
@@ -465,5 +483,211 @@ example : eventsOutcome (exCfg false) exNow "device" "k-slave" true false true e
     (some { exTok "" "k-other" (.num exNow) with ori := some "device", usr := .missing }) = .unauthorized := by decide
 example : eventsOutcome (exCfg false) exNow "device" "k-slave" true false true exHdr
     (some { exTok "" "k-slave" (.num exNow) with ori := some "device", usr := .missing }) = .pollingEnabled := by decide
+
+/-! ### the decision as a function of the header TEXT
+
+Above, the header text `hdr` and the decoded content `dec` are independent parameters of `prepare`, so those theorems
+quantify over *pairs* (text, content). Here the content is `D.decode (tokenPart hdr)`: a function of the text, for an
+arbitrary decoder `D` (the real one — PyJWT, base64, json, hmac — is trusted and run by the harness). The statements
+below therefore quantify over **all header texts and all decoders**; each is a corollary of its field-level twin. -/
+
+/-- **Exact characterisation over texts**: the header text `hdr` is granted `U` iff it is `Bearer <three base64url
+segments>` and what the decoder makes *of that very token text* passes every check of `parse_auth_header` for `U`. -/
+theorem granted_text_iff (D : Decoder) (cfg : Cfg) (now : Int) (origin : String) (hs : Hashes) (hdr : List Nat)
+    (U : User) (hne : hdr ≠ []) :
+    prepareText D cfg now origin hs hdr = some U ↔
+      TextValid hdr ∧ ∃ t, D.decode (tokenPart hdr) = some t ∧ t.usr = .str U.name ∧
+        TokValid cfg now origin true (consumerKey hs) t :=
+  granted_iff cfg now origin hs hdr (D.decode (tokenPart hdr)) U hne
+
+/-- … and on a valid text `tokenPart hdr` is group 1 of the bearer expression (what the code passes to `jwt.decode`). -/
+theorem text_valid_token_part {hdr : List Nat} (h : TextValid hdr) : matchBearer hdr = some (tokenPart hdr) :=
+  matchBearer_tokenPart h
+
+/-- **Soundness of the code as found, over texts.** -/
+theorem auth_sound_as_found_text (D : Decoder) (cfg : Cfg) (now : Int) (origin : String) (hs : Hashes)
+    (hdr : List Nat) (U : User) (hasis : cfg.strictIat = false) (hne : hdr ≠ [])
+    (h : prepareText D cfg now origin hs hdr = some U) :
+    ∃ t, D.decode (tokenPart hdr) = some t ∧ Meets cfg origin hs U hdr t ∧
+      (realClock cfg now = true → ∀ i, t.iat = .num i → now - i ≤ cfg.skew ∧ i - now ≤ cfg.skew) :=
+  auth_sound_as_found cfg now origin hs hdr (D.decode (tokenPart hdr)) U hasis hne h
+
+/-- **Soundness, STRICT READING only (not the code as found), over texts.** -/
+theorem auth_sound_strict_reading_text (D : Decoder) (cfg : Cfg) (now : Int) (origin : String) (hs : Hashes)
+    (hdr : List Nat) (U : User) (hstrict : cfg.strictIat = true) (hne : hdr ≠ [])
+    (h : prepareText D cfg now origin hs hdr = some U) :
+    ∃ t, D.decode (tokenPart hdr) = some t ∧ Meets cfg origin hs U hdr t ∧ IssueTimeWithin cfg now t :=
+  auth_sound_strict_reading cfg now origin hs hdr (D.decode (tokenPart hdr)) U hstrict hne h
+
+/-- **Completeness over texts**: a header text whose token part decodes to a content that meets every conjunct of the
+property is granted exactly the level of the user it names. -/
+theorem auth_complete_text (D : Decoder) (cfg : Cfg) (now : Int) (origin : String) (hs : Hashes) (hdr : List Nat)
+    (t : Tok) (U : User) (hd : D.decode (tokenPart hdr) = some t)
+    (htps : 0 < cfg.tps) (hne : hdr ≠ []) (hm : Meets cfg origin hs U hdr t) (hc : Clean t)
+    (i : Int) (hi : t.iat = .num i) (hi0 : 0 ≤ i) (h1 : now - i ≤ cfg.skew) (h2 : i - now ≤ cfg.skew) :
+    prepareText D cfg now origin hs hdr = some U := by
+  unfold prepareText
+  rw [hd]
+  exact auth_complete cfg now origin hs hdr t U htps hne hm hc i hi hi0 h1 h2
+
+/-- **No header, over decoders.** -/
+theorem no_header_text (D : Decoder) (cfg : Cfg) (now : Int) (origin : String) (hs : Hashes) (U : User) :
+    prepareText D cfg now origin hs [] = some U ↔ U = .admin ∧ hs.admin = cfg.emptyHash :=
+  no_header_only_if_empty_admin cfg now origin hs _ U
+
+/-- **Malformed text never authenticates, whatever the decoder**: a non-empty header text that is not
+`Bearer <three base64url segments>` is refused for *every* decoder (the decoder is not even consulted), and so is a
+text whose token part does not decode. -/
+theorem malformed_text_never (D : Decoder) (cfg : Cfg) (now : Int) (origin : String) (hs : Hashes) (hdr : List Nat)
+    (hne : hdr ≠ []) (hbad : ¬ TextValid hdr ∨ D.decode (tokenPart hdr) = none) :
+    prepareText D cfg now origin hs hdr = none :=
+  malformed_never cfg now origin hs hdr _ hne hbad
+
+/-- **The decision depends on the decoder only through the token part of the text**: two decoders that agree on group 1
+of this header give the same decision; and on a text that is not valid all decoders agree (refusal). -/
+theorem decision_depends_on_token_part (D D' : Decoder) (cfg : Cfg) (now : Int) (origin : String) (hs : Hashes)
+    (hdr : List Nat) (hne : hdr ≠ [])
+    (h : TextValid hdr → D.decode (tokenPart hdr) = D'.decode (tokenPart hdr)) :
+    prepareText D cfg now origin hs hdr = prepareText D' cfg now origin hs hdr := by
+  by_cases hv : TextValid hdr
+  · unfold prepareText; rw [h hv]
+  · rw [malformed_text_never D cfg now origin hs hdr hne (Or.inl hv),
+      malformed_text_never D' cfg now origin hs hdr hne (Or.inl hv)]
+
+/-- **Wrong key never authenticates, over texts.** -/
+theorem wrong_key_text_never (D : Decoder) (cfg : Cfg) (now : Int) (origin : String) (hs : Hashes) (hdr : List Nat)
+    (hne : hdr ≠ [])
+    (hk : ∀ t U, D.decode (tokenPart hdr) = some t → t.usr = .str U.name → t.sigKey ≠ some (hs.get U)) :
+    prepareText D cfg now origin hs hdr = none := by
+  unfold prepareText
+  cases hd : D.decode (tokenPart hdr) with
+  | none => exact malformed_never cfg now origin hs hdr none hne (Or.inr rfl)
+  | some t => exact wrong_key_never cfg now origin hs hdr t hne (fun U hu => hk t U hd hu)
+
+/-- **Only the latest password authenticates, over texts and histories.** -/
+theorem only_latest_password_authenticates_text (D : Decoder) (cfg : Cfg) (he : cfg.emptyHash ≠ "") (ops : List Op)
+    (hok : ∀ op ∈ ops, OpOk op) (now : Int) (origin : String) (hdr : List Nat) (U : User) (hne : hdr ≠ [])
+    (h : prepareText D cfg now origin (run cfg.emptyHash (boot cfg.emptyHash none) ops).mem hdr = some U) :
+    ∃ t, D.decode (tokenPart hdr) = some t ∧ t.usr = .str U.name ∧
+      t.sigKey = some (lastKey cfg.emptyHash U ops) :=
+  only_latest_password_authenticates cfg he ops hok now origin hdr _ U hne h
+
+/-- **Slave events endpoint, over texts.** -/
+theorem device_auth_text_iff (D : Decoder) (cfg : Cfg) (now : Int) (origin : String) (slaveHash : Key)
+    (hdr : List Nat) :
+    deviceAuthText D cfg now origin slaveHash hdr = true ↔
+      hdr ≠ [] ∧ TextValid hdr ∧
+        ∃ t, D.decode (tokenPart hdr) = some t ∧ TokValid cfg now origin false (fun _ => slaveHash) t :=
+  device_auth_iff cfg now origin slaveHash hdr _
+
+/-- A decoder for the examples: it knows one token text, `AA.AA.AA`. -/
+def exD (t : Tok) : Decoder := ⟨fun tok => if tok = [65, 65, 46, 65, 65, 46, 65, 65] then some t else none⟩
+
+/-- non-vacuity: the text `Bearer AA.AA.AA` is granted through the decoder; the equally well-formed text
+`Bearer AQ.AA.AA` (another token, unknown to the decoder) and the text `bearerAA.AA.AA` are refused; a decoder that
+reads another signing key out of the same text refuses it. -/
+example : tokenPart exHdr = [65, 65, 46, 65, 65, 46, 65, 65] := by decide
+example : prepareText (exD (exTok "normal" "k-normal" (.num (exNow - 5000)))) (exCfg false) exNow "consumer" exHs exHdr
+    = some .normal := by decide
+example : prepareText (exD (exTok "normal" "k-normal" (.num (exNow - 5000)))) (exCfg false) exNow "consumer" exHs
+    [66, 101, 97, 114, 101, 114, 32, 65, 81, 46, 65, 65, 46, 65, 65] = none := by decide
+example : prepareText (exD (exTok "normal" "k-normal" (.num (exNow - 5000)))) (exCfg false) exNow "consumer" exHs
+    [98, 101, 97, 114, 101, 114, 65, 65, 46, 65, 65, 46, 65, 65] = none := by decide
+example : prepareText (exD (exTok "normal" "k-admin" (.num (exNow - 5000)))) (exCfg false) exNow "consumer" exHs exHdr
+    = none := by decide
+example : deviceAuthText (exD { exTok "" "k-slave" (.num exNow) with ori := some "device", usr := .missing })
+    (exCfg false) exNow "device" "k-slave" exHdr = true := by decide
+
+/-! ### "the API never returns a password or its hash"
+
+Output model (`Model/Auth.lean`): `deviceReply emp d req` is the password-related content of the body answered to
+`GET /device` (the fields `admin_password`, `normal_password`, `viewonly_password`, each the text
+`attr_get_password` returns) and to `PATCH`/`PUT /device` (no body). A hub life is told with clear-text passwords
+(`PwOp`) and an arbitrary hash function `H` (SHA-256 hex digest in the code); the model proper sees `H pw` only. -/
+
+/-- The state of a hub after a life told with clear-text passwords. -/
+def lifeState (H : String → Key) (emp : Key) (h0 : Hub) (life : List PwOp) : Hub :=
+  hrun emp h0 (life.map (PwOp.toHOp H))
+
+/-- `s` is a secret of the life `past ++ later` of a hub started in `h0`: a hash held (in memory, in the persisted
+record, or for the slave) in the initial or in any intermediate or in the current state, a password submitted at any
+point of the life, its hash, or the empty-password hash. -/
+def IsSecret (H : String → Key) (emp : Key) (h0 : Hub) (life : List PwOp) (s : String) : Prop :=
+  (∃ past later, life = past ++ later ∧ s ∈ (lifeState H emp h0 past).hashes) ∨
+  s ∈ PwOp.passwords life ∨ s ∈ (PwOp.passwords life).map H ∨ s = emp
+
+/-- **Every password-related text the `/device` endpoints return is the literal `set` or the empty text** — for
+every hash function, every initial state (any memory, any persisted record, any slave hash) and every life. -/
+theorem device_reply_only_literals (H : String → Key) (emp : Key) (h0 : Hub) (life : List PwOp) (req : DevReq) :
+    ∀ f ∈ deviceReply emp (lifeState H emp h0 life).dev req, f.2 = "set" ∨ f.2 = "" :=
+  deviceReply_values emp _ req
+
+/-- **The `/device` replies never contain a password or a hash**: for every hash function, every initial hub state and
+every life of password changes (own and slave's), restarts and `PUT /device` calls, no text of the reply to
+`GET`/`PATCH`/`PUT /device` equals any current or past hash or any password ever submitted — under the side condition
+that the secret is not itself one of the two literal texts `set` / empty (necessary: `literal_password_is_echoed`;
+harmless for hashes: `device_doc_never_contains_hash_of_length`). -/
+theorem device_doc_never_contains_hash (H : String → Key) (emp : Key) (h0 : Hub) (life : List PwOp) (req : DevReq)
+    (s : String) (_hsec : IsSecret H emp h0 life s) (hlit : s ≠ "set" ∧ s ≠ "") :
+    ∀ f ∈ deviceReply emp (lifeState H emp h0 life).dev req, f.2 ≠ s := by
+  intro f hf he
+  rcases device_reply_only_literals H emp h0 life req f hf with h | h
+  · exact hlit.1 (he ▸ h)
+  · exact hlit.2 (he ▸ h)
+
+/-- For secrets of 64 characters (every SHA-256 hex digest) the side condition holds: no reply text equals a current or
+past hash, without further hypothesis. -/
+theorem device_doc_never_contains_hash_of_length (H : String → Key) (emp : Key) (h0 : Hub) (life : List PwOp)
+    (req : DevReq) (s : String) (hsec : IsSecret H emp h0 life s) (hlen : s.length = 64) :
+    ∀ f ∈ deviceReply emp (lifeState H emp h0 life).dev req, f.2 ≠ s :=
+  device_doc_never_contains_hash H emp h0 life req s hsec (length64_not_literal hlen)
+
+/-- **Non-interference form** (no side condition): the replies depend on the hashes only through *which users have an
+empty password*. Two hubs — whatever their lives, passwords and hashes — with the same users at the empty-password
+hash answer every `/device` request with the same password-related content. -/
+theorem device_reply_depends_only_on_emptiness (emp : Key) (d d' : Dev) (req : DevReq)
+    (h : ∀ u : User, d.mem.get u = emp ↔ d'.mem.get u = emp) :
+    deviceReply emp d req = deviceReply emp d' req := by
+  have ha := h .admin
+  have hn := h .normal
+  have hv := h .viewonly
+  simp only [Hashes.get] at ha hn hv
+  cases req <;> simp only [deviceReply, deviceDoc, pwText, ha, hn, hv]
+
+/-- What the document does tell: a user's field is empty iff that user's current hash is the empty-password hash —
+along a life of a hub started without a record, iff the last password set for the user hashes to it (or none was). -/
+theorem device_doc_reports_emptiness (emp : Key) (he : emp ≠ "") (ops : List Op) (hok : ∀ op ∈ ops, OpOk op) (u : User) :
+    (u.pwField, pwText emp (lastKey emp u ops)) ∈ deviceDoc emp (run emp (boot emp none) ops) ∧
+      (pwText emp (lastKey emp u ops) = "" ↔ lastKey emp u ops = emp) := by
+  refine ⟨?_, pwText_eq_empty_iff emp _⟩
+  rw [← password_history emp he ops hok u]
+  cases u <;> simp [deviceDoc, Hashes.get]
+
+/-- **The side condition is necessary**: a hub whose admin password is the text `set` returns that very text in the
+`admin_password` field (and a hub with an empty password returns the empty text). -/
+theorem literal_password_is_echoed (H : String → Key) (emp : Key) (h0 : Hub) (hH : H "set" ≠ emp) :
+    IsSecret H emp h0 [.set .admin "set"] "set" ∧
+      ("admin_password", "set") ∈ deviceReply emp (lifeState H emp h0 [.set .admin "set"]).dev .get := by
+  refine ⟨Or.inr (Or.inl (by simp [PwOp.passwords])), ?_⟩
+  simp [lifeState, hrun, hstep, step, PwOp.toHOp, deviceReply, deviceDoc, Hashes.set, pwText, hH, User.pwField]
+
+/-- A concrete life (hashes abbreviated by a toy hash function): passwords changed, hub restarted, `PUT /device`,
+slave password changed — the document shows `set` / empty only. -/
+def exH (pw : String) : Key := if pw = "" then "e3b0" else "H(" ++ pw ++ ")"
+def exLife : List PwOp := [.set .admin "hunter22", .restart, .set .normal "pw-normal", .slaveSet "pw-slave", .put,
+  .set .normal "", .restart]
+
+example : (lifeState exH "e3b0" ⟨boot "e3b0" none, "s0"⟩ exLife).dev.mem = ⟨"H(hunter22)", "e3b0", "e3b0"⟩ := by decide
+example : deviceReply "e3b0" (lifeState exH "e3b0" ⟨boot "e3b0" none, "s0"⟩ exLife).dev .get
+    = [("admin_password", "set"), ("normal_password", ""), ("viewonly_password", "")] := by decide
+example : deviceReply "e3b0" (lifeState exH "e3b0" ⟨boot "e3b0" none, "s0"⟩ exLife).dev (.patch .admin "x") = [] := rfl
+/-- non-vacuity of `IsSecret`: a superseded hash, a past password and the slave's hash are secrets of that life -/
+example : IsSecret exH "e3b0" ⟨boot "e3b0" none, "s0"⟩ exLife "H(pw-normal)" :=
+  Or.inl ⟨exLife.take 3, exLife.drop 3, by decide, by decide⟩
+example : IsSecret exH "e3b0" ⟨boot "e3b0" none, "s0"⟩ exLife "pw-normal" := Or.inr (Or.inl (by decide))
+example : IsSecret exH "e3b0" ⟨boot "e3b0" none, "s0"⟩ exLife "H(pw-slave)" :=
+  Or.inl ⟨exLife, [], by decide, by decide⟩
+/-- a 64-digit digest satisfies the side condition -/
+example : ("e3b0c44298fc1c149afbf4c8996fb92427ae41e4649b934ca495991b7852b855" : String).length = 64 := by decide
 
 end QtVerif.Auth.C10
